@@ -1032,6 +1032,13 @@ func c13Run(c *core.Ctx) *core.Result {
 	} else {
 		os.Mkdir(dstDir, 0755)
 	}
+	if core.NewRand(core.Mix(c.Seed, "C13-setgid-dest", c.Index)).P(1, 4) {
+		// a shared project directory: new entries below it inherit its group
+		// (and new directories the bit), whatever the process's own group is
+		os.Lchown(dstDir, 0, 4321)
+		os.Chmod(dstDir, 0775|os.ModeSetgid)
+		r.Count("destinations_with_setgid_bit_and_foreign_group", 1)
+	}
 	if err := tree.Materialise(srcDir, t); err != nil {
 		r.Inconclusive = "materialise: " + err.Error()
 		return r
